@@ -510,11 +510,12 @@ def callee_name_equals_variable_name(r):
     return bool(calls & vars_)
 
 
-def set_memory_on_control_argument(r):
-    """set_memory accepts a size/index/bool argument; the result prints `n: size @ MEM`, which the parser rejects"""
+def bool_or_stride_argument_printed_with_memory(r):
+    """a bool/stride argument is printed as `b: bool @ DRAM`, which the parser rejects"""
     if r.get("kind") != "reparse_failed" or "should not be annotated with memory" not in str(r.get("detail")):
         return False
-    return bool(re.search(r":\s*(size|index|bool|stride)\s*@", r.get("q_src") or ""))
+    first = (r.get("q_src") or "").split("):")[0]
+    return bool(re.search(r":\s*(bool|stride)\s*@", first))
 
 
 # ---------------------------------------------------------------------------
@@ -608,3 +609,12 @@ def c03_access_through_window_alias(r):
 def c03_window_interval_unchecked(r):
     """the interval of a WindowStmt / window expression is not checked against its source buffer"""
     return r.get("property") == "C03" and r.get("kind") == "window" and "not inside" in str(r.get("detail"))
+
+
+# ---------------------------------------------------------------------------
+# C09
+
+
+def c09_nested_par_loop_unchecked(r):
+    """(fixed) a racy parallel loop that is not a top-level statement"""
+    return r.get("property") == "C09"
